@@ -31,10 +31,10 @@ git apply $M/patch.diff
 cd /repo
 [ -z "$(git status --short)" ] || { echo "/repo not clean"; exit 2; }
 if ! git apply --3way $M/patch.diff 2>/tmp/apply.err; then
-  if ! git apply $M/patch.diff 2>>/tmp/apply.err; then echo "patch does not apply to /repo: $(cat /tmp/apply.err | head -3)"; git checkout -q -- .; exit 3; fi
+  if ! git apply $M/patch.diff 2>>/tmp/apply.err; then echo "patch does not apply to /repo: $(cat /tmp/apply.err | head -3)"; git reset -q --hard HEAD; exit 3; fi
 fi
 git reset -q 2>/dev/null
-go build ./... || { echo "does not build on /repo"; git checkout -q -- .; exit 3; }
+go build ./... || { echo "does not build on /repo"; git reset -q --hard HEAD; exit 3; }
 cd /verif
 out=$(./check $PROP --tier $TIER 2>&1)
 rc=$?
